@@ -13,7 +13,7 @@
 #define MAXL 2
 #endif
 #ifndef ENV_MALLOC_CAP
-#define ENV_MALLOC_CAP 168
+#define ENV_MALLOC_CAP 64
 #endif
 #define ENV_CUSTOM_VSNPRINTF
 #define ENV_CUSTOM_MALLOC
@@ -69,17 +69,19 @@ uint32_t env_vsnprintf(uint8_t* s, uint64_t n, uint8_t* f, uint8_t* va) {
 }
 
 /* ---------------------------------------------------------------- reference text functions */
-static uint64_t t_len(const uint8_t* s) { uint64_t n = 0; while (s[n]) n++; return n; }
+/* every loop of the reference code has a constant bound (TMAX) so that the symbolic executor can stop it; the bound is never the limiting factor (checked) */
+#define TMAX 224
+static uint64_t t_len(const uint8_t* s) { uint64_t n = 0; while (n < TMAX && s[n]) n++; ENV_ENGINE_ASSERT(n < TMAX, "reference text within TMAX"); return n; }
 static uint8_t t_lower(uint8_t c) { return (c >= 'A' && c <= 'Z') ? (uint8_t)(c + 32) : c; }
 static void app(uint8_t* dst, uint64_t* n, const char* s) { for (uint64_t i = 0; s[i]; i++) dst[(*n)++] = (uint8_t)s[i]; dst[*n] = 0; }
-static void appu(uint8_t* dst, uint64_t* n, const uint8_t* s) { for (uint64_t i = 0; s[i]; i++) dst[(*n)++] = s[i]; dst[*n] = 0; }
-static void appc(uint8_t* dst, uint64_t* n, uint8_t c, uint64_t times) { for (uint64_t i = 0; i < times; i++) dst[(*n)++] = c; dst[*n] = 0; }
+static void appu(uint8_t* dst, uint64_t* n, const uint8_t* s) { for (uint64_t i = 0; i < 24 && s[i]; i++) dst[(*n)++] = s[i]; dst[*n] = 0; }      /* operand texts: at most 4*MAXL+6 < 24 characters */
+static void appc(uint8_t* dst, uint64_t* n, uint8_t c, uint64_t times) { ENV_ENGINE_ASSERT(times <= 80, "reference padding within 80"); for (uint64_t i = 0; i < 80 && i < times; i++) dst[(*n)++] = c; dst[*n] = 0; }
 static const char HEXU[] = "0123456789ABCDEF";
 static const char HEXL[] = "0123456789abcdef";
 /* escaping of what is not printable: \a \b \t \n \v \f \r for 7..13, \xHH for every other byte outside 0x20..0x7e */
 static void t_printable(const uint8_t* s, uint8_t* dst) {
   uint64_t n = 0; dst[0] = 0;
-  for (uint64_t i = 0; s[i]; i++) {
+  for (uint64_t i = 0; i < MAXL && s[i]; i++) {
     uint8_t c = s[i];
     if (c >= 7 && c <= 13) { dst[n++] = '\\'; dst[n++] = (uint8_t)"abtnvfr"[c - 7]; }
     else if (c < 0x20 || c >= 0x7f) { dst[n++] = '\\'; dst[n++] = 'x'; dst[n++] = (uint8_t)HEXU[c >> 4]; dst[n++] = (uint8_t)HEXU[c & 15]; }
@@ -93,15 +95,15 @@ static void t_hex(uint64_t v, uint8_t* dst, uint64_t* n) {
   dst[*n] = 0;
 }
 static int out_is(const uint8_t* out, uint64_t n, const uint8_t* want, uint64_t wn) {
-  if (n != wn) return 0;
-  for (uint64_t i = 0; i < wn; i++) if (out[i] != want[i]) return 0;
+  if (n != wn || wn >= OUTCAP) return 0;
+  for (uint64_t i = 0; i < OUTCAP; i++) if (i < wn && out[i] != want[i]) return 0;
   return out[wn] == 0;
 }
 /* the optional user text in front of every message */
 static void user_text(uint8_t* w, uint64_t* n, const uint8_t* text) { if (text[0]) { app(w, n, "Message: "); appu(w, n, text); app(w, n, "\n\t"); } }
 /* "\n\tdifference starts at position N at: <20 characters around it>\n\t      ^" */
 static void difference_marker(uint8_t* w, uint64_t* n, const uint8_t* shown, uint64_t shownPos, uint64_t reportedPos) {
-  uint8_t padded[96]; uint64_t pn = 0;
+  uint8_t padded[96] = {0}; uint64_t pn = 0;
   appc(padded, &pn, ' ', 10); appu(padded, &pn, shown); appc(padded, &pn, ' ', 10);
   uint64_t lead = *n;
   app(w, n, "\n\tdifference starts at position "); appc(w, n, '#', (uint64_t)t_digits(reportedPos)); app(w, n, " at: <");
@@ -111,55 +113,89 @@ static void difference_marker(uint8_t* w, uint64_t* n, const uint8_t* shown, uin
   app(w, n, ">\n\t"); appc(w, n, ' ', headline + 10); app(w, n, "^");
 }
 
+/* ---------------------------------------------------------------- the marker renderer in the solver world of the 'msg' group
+ * TestFailure::createDifferenceAtPosString builds ~110-character strings (20-character window, caret line); with them
+ * every constructor obligation needs 168-byte heap objects and does not finish.  Decomposition: in the translated
+ * (solver) world of this group the renderer is a RECORDING stub - the constructor obligations check that it is
+ * called once with (shown actual text, index of the first difference in the shown text, index of the first
+ * difference of the operands); the renderer itself is checked for all such arguments by harness_marker in the
+ * 'long' group.  The real build runs the real renderer and the full message is compared there. */
+#if defined(MARKER_STUBBED) && defined(LL2C_TRANSLATED)
+#define MARKER_IS_STUB 1
+void _ZN12SimpleStringC2EPKc(uint8_t*, uint8_t*);
+uint8_t* _ZNK12SimpleString12asCharStringEv(uint8_t*);
+static uint32_t marker_calls; static uint64_t marker_offset, marker_pos; static uint8_t marker_text[32];
+void _ZN11TestFailure27createDifferenceAtPosStringERK12SimpleStringmm(uint8_t* result, uint8_t* self, uint8_t* actual, uint64_t offset, uint64_t pos) {
+  (void)self;
+  const uint8_t* t = _ZNK12SimpleString12asCharStringEv(actual);
+  uint64_t i = 0; for (; i < 31 && t[i]; i++) marker_text[i] = t[i];
+  marker_text[i] = 0;
+  marker_calls++; marker_offset = offset; marker_pos = pos;
+  _ZN12SimpleStringC2EPKc(result, (uint8_t*)"");
+}
+#else
+#define MARKER_IS_STUB 0
+static uint32_t marker_calls; static uint64_t marker_offset, marker_pos; static uint8_t marker_text[32];
+#endif
+static int text_is(const uint8_t* a, const uint8_t* b) { for (uint64_t i = 0; i < 32; i++) { if (a[i] != b[i]) return 0; if (!a[i]) return 1; } return 0; }
+/* the part of the message after "expected <..> but was <..>": in the stubbed world the recorded call, in the real world the text */
+static void expect_marker(uint8_t* w, uint64_t* wn, const uint8_t* shown, uint64_t shownPos, uint64_t reportedPos) {
+  if (MARKER_IS_STUB) {
+    CHECK(marker_calls == 1, "the difference is marked once");
+    CHECK(marker_pos == reportedPos, "the position handed to the marker is the first index at which the operands differ");
+    CHECK(marker_offset == shownPos, "the marker points at the first difference of the shown texts");
+    CHECK(text_is(marker_text, shown), "the marker window is cut from the shown actual text");
+  } else {
+    difference_marker(w, wn, shown, shownPos, reportedPos);
+    if (nrec) { int found = 0; for (uint32_t k = 0; k < nrec && k < MAXREC; k++) if (rec[k].conv == 'u' && rec[k].lng == 1) { found++; CHECK(rec[k].val == reportedPos, "the printed position is the first index at which the operands differ"); }
+                CHECK(found == 1, "the position is printed once"); }
+  }
+}
+
 /* ---------------------------------------------------------------- first-difference classes: CHECK_EQUAL, STRCMP_EQUAL, STRCMP_NOCASE_EQUAL */
-static void body_harness_diff(const int KIND) {
+static void body_harness_diff(const int KIND, const int enull, const int anull) {   /* NULL-ness is a constant per obligation: a symbolic pointer would unbound every string loop */
   h_init();
-  STR(e); STR(a); IN_BOOL(enull); IN_BOOL(anull);
+  STR(e); STR(a);
   const int nocase = KIND == 2;
-  if (KIND == 0) ASSUME(!enull && !anull);                 /* CHECK_EQUAL passes rendered values, never NULL */
-  uint8_t E[4 * MAXL + 8], A[4 * MAXL + 8];
+  uint8_t E[4 * MAXL + 8] = {0}, A[4 * MAXL + 8] = {0};
   if (enull) { uint64_t k = 0; app(E, &k, "(null)"); } else t_printable(e, E);
   if (anull) { uint64_t k = 0; app(A, &k, "(null)"); } else t_printable(a, A);
   /* first index at which the operands differ / at which what is shown differs */
   uint64_t N = 0, P = 0;
   if (!enull && !anull) {
-    while (e[N] && (nocase ? t_lower(e[N]) == t_lower(a[N]) : e[N] == a[N])) N++;
+    while (N < MAXL && e[N] && (nocase ? t_lower(e[N]) == t_lower(a[N]) : e[N] == a[N])) N++;
     int same = nocase ? t_lower(e[N]) == t_lower(a[N]) : e[N] == a[N];
     /* STRCMP checks build this failure only for operands that differ; CHECK_EQUAL compares the VALUES, their texts may coincide */
     if (KIND != 0) ASSUME(!same);
-    while (E[P] && (nocase ? t_lower(E[P]) == t_lower(A[P]) : E[P] == A[P])) P++;
+    while (P < 4 * MAXL && E[P] && (nocase ? t_lower(E[P]) == t_lower(A[P]) : E[P] == A[P])) P++;
     int shown_same = nocase ? t_lower(E[P]) == t_lower(A[P]) : E[P] == A[P];
 #ifdef KF_C14_2
     ASSUME(!shown_same);     /* open finding: operands whose shown forms coincide ("\n" vs "\\n", equal texts) - the scans run past the terminator */
 #else
     (void)shown_same;
 #endif
-  } else if (KIND != 0) ASSUME(!(enull && anull));         /* NULL equals NULL: no failure */
-  nrec = 0;
-  uint8_t out[OUTCAP];
-  uint64_t n = h_msg_text(KIND, enull ? (uint8_t*)0 : e, anull ? (uint8_t*)0 : a, (uint8_t*)"", out, OUTCAP);
-  OBSERVE_STR(out);
-  uint8_t w[OUTCAP]; uint64_t wn = 0; w[0] = 0;
-  app(w, &wn, "expected <"); appu(w, &wn, E); app(w, &wn, ">\n\tbut was  <"); appu(w, &wn, A); app(w, &wn, ">");
-  if (!enull && !anull) {
-    difference_marker(w, &wn, A, P, N);
-    int found = 0; for (uint32_t k = 0; k < nrec; k++) if (rec[k].conv == 'u' && rec[k].lng == 1) { found++; CHECK(rec[k].val == N, "the printed position is the first index at which the operands differ"); }
-    CHECK(found == 1, "the position is printed once");
   }
+  nrec = 0;
+  uint8_t out[OUTCAP] = {0};
+  uint64_t n = h_msg_text(KIND, enull ? (uint8_t*)0 : e, anull ? (uint8_t*)0 : a, (uint8_t*)"", out, OUTCAP);
+  uint8_t w[OUTCAP] = {0}; uint64_t wn = 0;
+  app(w, &wn, "expected <"); appu(w, &wn, E); app(w, &wn, ">\n\tbut was  <"); appu(w, &wn, A); app(w, &wn, ">");
+  if (!enull && !anull) expect_marker(w, &wn, A, P, N);
+  else CHECK(marker_calls == 0, "no position without two texts");
+  OBSERVE(N); OBSERVE(P);
   CHECK(out_is(out, n, w, wn), "the message shows both operands, escaped when not printable, and marks the difference in the shown text");
   WITNESS("end");
 }
 /* ---------------------------------------------------------------- classes that only show their operands */
-static void body_harness_show(const int KIND) {   /* 3 EqualsFailure(char*), 4 EqualsFailure(SimpleString), 5 Contains, 6 Check, 7 Comparison, 8 Fail, 9 FeatureUnsupported */
+static void body_harness_show(const int KIND, const int enull, const int anull) {   /* 3 EqualsFailure(char*), 4 EqualsFailure(SimpleString), 5 Contains, 6 Check, 7 Comparison, 8 Fail, 9 FeatureUnsupported */
   h_init();
-  STR(e); STR(a); IN_BOOL(enull); IN_BOOL(anull); IN_ARR_U8(text, 2); text[1] = 0;
-  if (KIND != 3) ASSUME(!enull && !anull);
+  STR(e); STR(a); IN_ARR_U8(text, 2); text[1] = 0;
   if (KIND == 8) ASSUME(text[0] == 0);                        /* FAIL has only its message */
-  uint8_t out[OUTCAP];
+  uint8_t out[OUTCAP] = {0};
   uint64_t n = h_msg_text(KIND, enull ? (uint8_t*)0 : e, anull ? (uint8_t*)0 : a, text, out, OUTCAP);
   OBSERVE_STR(out);
   const uint8_t* E = enull ? (const uint8_t*)"(null)" : e; const uint8_t* A = anull ? (const uint8_t*)"(null)" : a;
-  uint8_t w[OUTCAP]; uint64_t wn = 0; w[0] = 0;
+  uint8_t w[OUTCAP] = {0}; uint64_t wn = 0;
   user_text(w, &wn, text);
   switch (KIND) {
     case 3: case 4: app(w, &wn, "expected <"); appu(w, &wn, E); app(w, &wn, ">\n\tbut was  <"); appu(w, &wn, A); app(w, &wn, ">"); break;
@@ -175,27 +211,23 @@ static void body_harness_show(const int KIND) {   /* 3 EqualsFailure(char*), 4 E
 #ifndef BINMAX
 #define BINMAX 2
 #endif
-HARNESS(harness_binary) {
+static void body_harness_binary(const int enull, const int anull) {
   h_init();
-  IN_ARR_U8(e, BINMAX); IN_ARR_U8(a, BINMAX); IN_BOOL(enull); IN_BOOL(anull); IN_U64(size);
+  IN_ARR_U8(e, BINMAX); IN_ARR_U8(a, BINMAX); IN_U64(size);
   ASSUME(size <= BINMAX);
   uint64_t N = 0;
-  if (!enull && !anull) { while (N < size && e[N] == a[N]) N++; ASSUME(N < size); }   /* the check fails only for blocks that differ */
-  else ASSUME(!(enull && anull));
+  if (!enull && !anull) { while (N < BINMAX && N < size && e[N] == a[N]) N++; ASSUME(N < size); }   /* the check fails only for blocks that differ */
   nrec = 0;
-  uint8_t out[OUTCAP];
+  uint8_t out[OUTCAP] = {0};
   uint64_t n = h_msg_binary(enull ? (uint8_t*)0 : e, anull ? (uint8_t*)0 : a, size, out, OUTCAP);
-  OBSERVE_STR(out);
-  uint8_t E[3 * BINMAX + 8], A[3 * BINMAX + 8]; uint64_t k;
-  k = 0; E[0] = 0; if (enull) app(E, &k, "(null)"); else for (uint64_t i = 0; i < size; i++) { if (i) E[k++] = ' '; E[k++] = (uint8_t)HEXU[e[i] >> 4]; E[k++] = (uint8_t)HEXU[e[i] & 15]; E[k] = 0; }
-  k = 0; A[0] = 0; if (anull) app(A, &k, "(null)"); else for (uint64_t i = 0; i < size; i++) { if (i) A[k++] = ' '; A[k++] = (uint8_t)HEXU[a[i] >> 4]; A[k++] = (uint8_t)HEXU[a[i] & 15]; A[k] = 0; }
-  uint8_t w[OUTCAP]; uint64_t wn = 0; w[0] = 0;
+  uint8_t E[3 * BINMAX + 8] = {0}, A[3 * BINMAX + 8] = {0}; uint64_t k;
+  k = 0; if (enull) app(E, &k, "(null)"); else for (uint64_t i = 0; i < BINMAX && i < size; i++) { if (i) E[k++] = ' '; E[k++] = (uint8_t)HEXU[e[i] >> 4]; E[k++] = (uint8_t)HEXU[e[i] & 15]; E[k] = 0; }
+  k = 0; if (anull) app(A, &k, "(null)"); else for (uint64_t i = 0; i < BINMAX && i < size; i++) { if (i) A[k++] = ' '; A[k++] = (uint8_t)HEXU[a[i] >> 4]; A[k++] = (uint8_t)HEXU[a[i] & 15]; A[k] = 0; }
+  uint8_t w[OUTCAP] = {0}; uint64_t wn = 0;
   app(w, &wn, "expected <"); appu(w, &wn, E); app(w, &wn, ">\n\tbut was  <"); appu(w, &wn, A); app(w, &wn, ">");
-  if (!enull && !anull) {
-    difference_marker(w, &wn, A, 3 * N + 1, N);
-    int found = 0; for (uint32_t r = 0; r < nrec; r++) if (rec[r].conv == 'u' && rec[r].lng == 1) { found++; CHECK(rec[r].val == N, "the printed position is the index of the first differing byte"); }
-    CHECK(found == 1, "the position is printed once");
-  }
+  if (!enull && !anull) expect_marker(w, &wn, A, 3 * N + 1, N);
+  else CHECK(marker_calls == 0, "no position without two blocks");
+  OBSERVE(N);
   CHECK(out_is(out, n, w, wn), "the message shows both blocks in hexadecimal and marks the first differing byte");
   WITNESS("end");
 }
@@ -209,13 +241,13 @@ static void body_harness_number(const int KIND) {  /* 0 long 1 unsigned long 2 l
   const int is_signed = KIND == 0 || KIND == 2 || KIND == 4;
   if (KIND == 4) { e = (uint64_t)(int64_t)(int8_t)e; a = (uint64_t)(int64_t)(int8_t)a; }
   nrec = 0;
-  uint8_t out[OUTCAP];
+  uint8_t out[OUTCAP] = {0};
   uint64_t n = h_msg_number(KIND, e, a, out, OUTCAP);
   OBSERVE_STR(out);
-  uint8_t ED[24], AD[24]; uint64_t en = 0, an = 0; ED[0] = AD[0] = 0;
+  uint8_t ED[24] = {0}, AD[24] = {0}; uint64_t en = 0, an = 0;
   dec_placeholder(ED, &en, e, is_signed); dec_placeholder(AD, &an, a, is_signed);
   uint64_t width = en > an ? en : an;                       /* the shorter number is right-aligned to the longer */
-  uint8_t w[OUTCAP]; uint64_t wn = 0; w[0] = 0;
+  uint8_t w[OUTCAP] = {0}; uint64_t wn = 0;
   app(w, &wn, "expected <"); appc(w, &wn, ' ', width - en); appu(w, &wn, ED); app(w, &wn, " (0x"); t_hex(KIND == 4 ? (uint64_t)(uint8_t)e : e, w, &wn); app(w, &wn, ")>\n\tbut was  <");
   appc(w, &wn, ' ', width - an); appu(w, &wn, AD); app(w, &wn, " (0x"); t_hex(KIND == 4 ? (uint64_t)(uint8_t)a : a, w, &wn); app(w, &wn, ")>");
   CHECK(out_is(out, n, w, wn), "the message shows both operands in decimal (aligned) and hexadecimal");
@@ -234,10 +266,10 @@ static void t_bits(uint8_t* dst, uint64_t* n, uint64_t v, uint64_t mask, uint64_
 HARNESS(harness_bits) {
   h_init(); IN_U64(e); IN_U64(a); IN_U64(mask); IN_U64(bytes);
   ASSUME(bytes >= 1 && bytes <= BITBYTES);
-  uint8_t out[OUTCAP];
+  uint8_t out[OUTCAP] = {0};
   uint64_t n = h_msg_bits(e, a, mask, bytes, out, OUTCAP);
   OBSERVE_STR(out);
-  uint8_t w[OUTCAP]; uint64_t wn = 0; w[0] = 0;
+  uint8_t w[OUTCAP] = {0}; uint64_t wn = 0;
   app(w, &wn, "expected <"); t_bits(w, &wn, e, mask, bytes); app(w, &wn, ">\n\tbut was  <"); t_bits(w, &wn, a, mask, bytes); app(w, &wn, ">");
   CHECK(out_is(out, n, w, wn), "the message shows the compared bits of both operands, x where masked out");
   WITNESS("end");
@@ -246,13 +278,34 @@ HARNESS(harness_bits) {
 static void t_double(uint8_t* dst, uint64_t* n, double d) { if (d != d) app(dst, n, "Nan - Not a number"); else if (d - d != 0.0) app(dst, n, "Inf - Infinity"); else app(dst, n, "#"); }
 HARNESS(harness_doubles) {
   h_init(); IN_DBL(e); IN_DBL(a); IN_DBL(t);
-  uint8_t out[OUTCAP];
+  uint8_t out[OUTCAP] = {0};
   uint64_t n = h_msg_doubles(e, a, t, out, OUTCAP);
-  uint8_t w[OUTCAP]; uint64_t wn = 0; w[0] = 0;
+  uint8_t w[OUTCAP] = {0}; uint64_t wn = 0;
   app(w, &wn, "expected <"); t_double(w, &wn, e); app(w, &wn, ">\n\tbut was  <"); t_double(w, &wn, a); app(w, &wn, "> threshold used was <"); t_double(w, &wn, t); app(w, &wn, ">");
   if (e != e || a != a || t != t) app(w, &wn, "\n\tCannot make comparisons with Nan");
   OBSERVE(n);
   CHECK(out_is(out, n, w, wn), "the message shows both operands and the threshold, and says when a NaN is involved");
+  WITNESS("end");
+}
+/* ---------------------------------------------------------------- the marker renderer itself ('long' group) */
+#ifndef MARKMAX
+#define MARKMAX 4
+#endif
+HARNESS(harness_marker) {
+  h_init();
+  IN_ARR_U8(actual, MARKMAX + 1); IN_U64(offset); IN_U64(pos); actual[MARKMAX] = 0;
+  ASSUME(offset <= t_len(actual));          /* the constructors hand over the index of a first difference: at most the length */
+#ifdef MARKPOSMAX
+  ASSUME(pos <= MARKPOSMAX);
+#endif
+  nrec = 0;
+  uint8_t out[OUTCAP] = {0};
+  uint64_t n = h_marker(actual, offset, pos, out, OUTCAP);
+  OBSERVE_STR(out);
+  uint8_t w[OUTCAP] = {0}; uint64_t wn = 0;
+  difference_marker(w, &wn, actual, offset, pos);
+  CHECK(out_is(out, n, w, wn), "\"difference starts at position N at: <20 characters around it>\" and a caret under the position");
+  CHECK(nrec == 1 && rec[0].conv == 'u' && rec[0].lng == 1 && rec[0].val == pos, "the printed position is the one handed over");
   WITNESS("end");
 }
 /* ---------------------------------------------------------------- where it happened */
@@ -269,7 +322,7 @@ HARNESS(harness_where) {
 HARNESS(finding_strcmp_equal_shown_forms) {   /* STRCMP_EQUAL("\\n", "\n"): both are shown as \n and the scan of the shown forms leaves the buffers */
   h_init();
   uint8_t e[3] = { '\\', 'n', 0 }, a[2] = { '\n', 0 };
-  uint8_t out[OUTCAP];
+  uint8_t out[OUTCAP] = {0};
   uint64_t n = h_msg_text(1, e, a, (uint8_t*)"", out, OUTCAP);
   CHECK(n > 0, "a message is built");
   WITNESS("end");
@@ -277,13 +330,18 @@ HARNESS(finding_strcmp_equal_shown_forms) {   /* STRCMP_EQUAL("\\n", "\n"): both
 HARNESS(finding_check_equal_same_text) {      /* CHECK_EQUAL of two different values whose StringFrom texts are both "1" */
   h_init();
   uint8_t e[2] = { '1', 0 }, a[2] = { '1', 0 };
-  uint8_t out[OUTCAP];
+  uint8_t out[OUTCAP] = {0};
   uint64_t n = h_msg_text(0, e, a, (uint8_t*)"", out, OUTCAP);
   CHECK(n > 0, "a message is built");
   WITNESS("end");
 }
 
 #define K1(f, k) HARNESS(f##_##k) { body_##f(k); }
-K1(harness_diff, 0) K1(harness_diff, 1) K1(harness_diff, 2)
-K1(harness_show, 3) K1(harness_show, 4) K1(harness_show, 5) K1(harness_show, 6) K1(harness_show, 7) K1(harness_show, 8) K1(harness_show, 9)
+#define K3(f, k, en, an) HARNESS(f##_##k##_##en##an) { body_##f(k, en, an); }
+K3(harness_diff, 0, 0, 0)
+K3(harness_diff, 1, 0, 0) K3(harness_diff, 1, 0, 1) K3(harness_diff, 1, 1, 0)      /* NULL against NULL compares equal: no failure to build */
+K3(harness_diff, 2, 0, 0) K3(harness_diff, 2, 0, 1) K3(harness_diff, 2, 1, 0)
+K3(harness_show, 3, 0, 0) K3(harness_show, 3, 0, 1) K3(harness_show, 3, 1, 0) K3(harness_show, 3, 1, 1)
+K3(harness_show, 4, 0, 0) K3(harness_show, 5, 0, 0) K3(harness_show, 6, 0, 0) K3(harness_show, 7, 0, 0) K3(harness_show, 8, 0, 0) K3(harness_show, 9, 0, 0)
+HARNESS(harness_binary_00) { body_harness_binary(0, 0); } HARNESS(harness_binary_01) { body_harness_binary(0, 1); } HARNESS(harness_binary_10) { body_harness_binary(1, 0); }
 K1(harness_number, 0) K1(harness_number, 1) K1(harness_number, 2) K1(harness_number, 3) K1(harness_number, 4)
